@@ -9,7 +9,7 @@ the model; none of its functions.
 -/
 
 namespace Spec.Tlv
-open V2
+open _root_.V2
 
 /-- One TLV on the wire: type, big-endian 16-bit length, value. -/
 def enc (t : V2.Tlv) : B :=
